@@ -247,7 +247,7 @@ func runC01(c *Check, a *Analysis) {
 
 	// ---- copy before decode / use after release (shared engines)
 	ruleClientCopyBeforeDecode(c, a, "R-COPY-BEFORE-DECODE")
-	ruleUseAfterRelease(c, a, "R-UAR", uarClient)
+	ruleUseAfterRelease(c, a, "R-UAR", uarAll)
 	ruleSeqAdvanceOnPath(c, a, "R-SEQ-ADVANCE-PATH")
 	ruleRecycleClean(c, a, "R-RECYCLE-CLEAN")
 	rulePendingKeys(c, a, "R-PENDING-KEYS")
